@@ -743,12 +743,17 @@ def _receiver_start(toks, dot_k, lo):
 
 
 def rule_R2(ed, src, parts, method, ordinal):
-    """RECV.map(|p| body)        -> match RECV { Some(p) => Some(body), None => None }
+    """(method `okmap`: `RECV.map(PATH)` on a Result -> match RECV { Ok(v) => Ok(PATH(v)), Err(e) => Err(e) },
+       the definition of `Result::map`, for a path that is an enum constructor)
+       RECV.map(|p| body)        -> match RECV { Some(p) => Some(body), None => None }
        RECV.and_then(|p| body)   -> match RECV { Some(p) => body, None => None }
        RECV.map_err(|p| body)?   -> match RECV { Ok(v) => v, Err(p) => return Err(body) }"""
     toks = src.toks
     bo, bc = parts["body"]
     hits = []
+    result_map = (method == "okmap")
+    if result_map:
+        method = "map"
     for k in range(bo + 1, bc):
         t = toks[k]
         if t.kind == "ident" and t.text == method and toks[k - 1].text == ".":
@@ -776,7 +781,9 @@ def rule_R2(ed, src, parts, method, ordinal):
         while toks[j].kind in ("ws", "comment"):
             j -= 1
         recv = src.text[toks[r0].start:toks[j].end]
-        if method == "map":
+        if result_map:
+            new = "match %s { Ok(verif_x) => Ok(%s(verif_x)), Err(verif_e) => Err(verif_e) }" % (recv, path)
+        elif method == "map":
             new = "match %s { Some(verif_x) => Some(%s(verif_x)), None => None }" % (recv, path)
         else:
             new = "match %s { Some(verif_x) => %s(verif_x), None => None }" % (recv, path)
